@@ -120,6 +120,11 @@ def catalogue(thorough: bool) -> t.List[Stream]:
     # long PDUs (long-form lengths): one >255-byte message
     big = L.SearchResultEntry(1, [], "cn=" + "a" * 130, [L.PartialAttribute("m", [b"x" * 140, b"y"])])
     out.append(Stream("client", ["search"], [big, L.SearchResultDone(1, [], L.LDAPResult(L.LDAPResultCode.SUCCESS, "", "", None))], 0, "long"))
+    # 3-octet lengths (>= 65536): explored on the sparse column set around headers and boundaries
+    huge = L.SearchResultEntry(1, [], "cn=x", [L.PartialAttribute("jpegPhoto", [b"\xff" * 66000])])
+    out.append(Stream("client", ["search"], [huge, _with_id(don[0], 1)], 0, "3-octet-length"))
+    hugereq = L.ExtendedRequest(1, [], "1.2", b"v" * 65536)
+    out.append(Stream("server", [], [hugereq, _with_id(er[0], 2)], 2, "3-octet-length-off-boundary"))
     if thorough:
         bigreq = L.SearchRequest(1, [L.PagedResultControl(True, 500, b"c" * 200)], "dc=" + "x" * 200, L.SearchScope.SUBTREE, L.DereferencingPolicy.NEVER, 0, 0, False, L.FilterEquality("cn", b"v" * 150), ["a" * 128])
         out.append(Stream("server", [], [bigreq, _with_id(er[0], 2)], 0, "long"))
@@ -155,6 +160,18 @@ def _scribble(flavour: str, buf: t.Any) -> t.Optional[str]:
     return None
 
 
+def column_set(n: int, ends: t.List[int], sparse: bool) -> t.List[int]:
+    """All columns, or -- for streams too long for (n+1)(n+2)/2 edges -- the columns around every
+    header and PDU boundary (where every branch of the reassembly code is decided)."""
+    if not sparse:
+        return list(range(n + 1))
+    cols = set(range(0, min(n, 14) + 1)) | set(range(max(0, n - 4), n + 1))
+    for e in [0] + ends:
+        cols |= {c for c in range(e - 4, e + 14) if 0 <= c <= n}
+    cols |= {n // 2, n // 3}
+    return sorted(cols)
+
+
 def explore_stream(st: Stream, flavours: t.List[str]) -> evid.Local:
     loc = evid.Local()
     s = st.data()
@@ -171,7 +188,8 @@ def explore_stream(st: Stream, flavours: t.List[str]) -> evid.Local:
     col_sess: t.List[t.Any] = [None] * (n + 1)
     col_msgs: t.List[t.Any] = [None] * (n + 1)
     base = session_for(st)
-    for j in range(n + 1):
+    cols = column_set(n, ends, n > 800)
+    for j in cols:
         c = copy.deepcopy(base)
         try:
             msgs = c.receive(s[:j]) if j else []
@@ -191,9 +209,9 @@ def explore_stream(st: Stream, flavours: t.List[str]) -> evid.Local:
         col_msgs[j] = [A.src(m) for m in msgs]
         loc.add("states")
     loc.distinct.add((st.role, st.note, n))
-    for k in range(n + 1):
+    for k in cols:
         have = col_msgs[k]
-        for j in range(k, n + 1):
+        for j in (c for c in cols if c >= k):
             for fl in flavours:
                 if k == 0 and fl == "bytes" and j > 0:
                     continue  # that edge defined the column
@@ -255,14 +273,14 @@ def run(ctx: evid.Ctx) -> None:
     for i, st in enumerate(streams):
         n = len(st.data())
         for fl in FLAVOURS:
-            if n > 200 and fl != "bytes" and not thorough:
+            if 200 < n <= 800 and fl != "bytes" and not thorough:
                 continue
             jobs.append((i, fl))
     jobs.sort(key=lambda j: -len(streams[j[0]].data()))
     for loc in par.pmap(_work, jobs, ctx.seed):
         evid.absorb(ctx, loc)
     # columns are shared by the flavours of a stream: count them once
-    ctx.counters["states"] = sum(len(st.data()) + 1 for st in streams)
+    ctx.counters["states"] = sum(len(column_set(len(st.data()), [e for _s, e in ber.frame(st.data())[0]], len(st.data()) > 800)) for st in streams)
     ctx.counters["evaluations"] = ctx.counters.get("transitions", 0)
     ctx.note("streams", len(streams))
     ctx.note("stream_lengths", sorted(len(st.data()) for st in streams))
@@ -277,6 +295,7 @@ def run(ctx: evid.Ctx) -> None:
     ctx.assumptions = [
         "streams are well-formed message sequences on which a single delivery returns (terminators make receive raise: C05/C08)",
         "the equivalence of all partitions follows by induction from the per-edge agreement checked here",
+        "streams longer than 800 bytes use a sparse column set (around every header and PDU boundary): all partitions whose cuts lie in that set",
     ]
 
 
